@@ -25,6 +25,7 @@ META = {
     "assumptions": [],
     "not_decided": "tokio's lock fairness / wake-on-release (contract)",
 }
+META["explanation"] += ' R16.4 every Ready(Some(..)) the async poll paths build is dominated by the call of the poll leaf (so its closed test and version bookkeeping run first). R16.5 an effect (state method, sibling method, wait for an update) that the sync twin performs on every completing path is performed on every completing path of the async method as well (cut check on the coroutine body; a closure that performs the effect counts where it is constructed).'
 
 POLLISH = ("poll_next_ref", "poll_update", "poll_next_nopin")
 
@@ -102,6 +103,108 @@ def skeleton(F, fn, _depth=0):
     return ev
 
 
+def r16_4(ctx, f, leaves):
+    """every item / completion the async poll path reports is derived from the leaf: a `Ready(Some(..))` built on a path that has not
+    asked `ObservableState::poll_update` skips its closed test (version 0 = closed) and its version bookkeeping."""
+    F = ctx.facts
+    b = inl(F, f, *leaves, desugar=True, tag="r16.4") or f.built
+    leaf_blocks = [blk for blk, t in b.calls() if F.local_callee(f, t) in leaves or any((t.get("resolved") or t.get("callee") or "").endswith(l.path.split("::")[-1]) and "ObservableState" in (t.get("callee") or "") for l in leaves)]
+    if not leaf_blocks:
+        return
+    for loc, kind, payload in blocks_assigning_ret(b):
+        if kind != "assign":
+            continue
+        e = strip(b.expr_of_rv(payload, 6, (), loc), through_calls=False)
+        v = agg_variant(e)
+        if not v or v[1] != "Ready":
+            continue
+        inner = strip(e[5][0], through_calls=False) if len(e) > 5 and e[5] else None
+        some = inner is not None and agg_variant(inner) and agg_variant(inner)[1] == "Some"
+        dominated = any(b.dominates(lb, loc[0]) for lb in leaf_blocks)
+        if dominated:
+            ctx.holds("R16.4", f, "ready-derives-from-leaf", b.line_at(loc), "this Ready result is built after the leaf was asked")
+        elif some:
+            ctx.violated("R16.4", f, "ready-derives-from-leaf", b.line_at(loc),
+                         "`%s` returns Ready(Some(..)) on a path that never asks ObservableState::poll_update: the closed test (version 0) is skipped, so the stream yields an item where the default flavour ends" % f.path)
+        else:
+            ctx.undecided("R16.4", f, "ready-derives-from-leaf", b.line_at(loc), "a Ready result without the leaf")
+
+
+def _event_name(F, fn, c, sfns):
+    if c is None:
+        return None
+    if c in sfns:
+        return "state." + c.name
+    st = (c.raw.get("self_ty") or "")
+    if not c.raw.get("impl_trait") and c is not fn and c.kind == "assoc" and (st.startswith("subscriber::Subscriber<") or st.split("<")[0] == (fn.raw.get("self_ty") or "").split("<")[0]):
+        nm = c.name.replace("_async", "")
+        if nm in ("new", "from_inner", "new_async"):
+            return None
+        return "self.<poll>" if nm in POLLISH else "self." + nm
+    return None
+
+
+def event_blocks(F, fn):
+    """per top-level logical body (the fn or its coroutine): event name -> blocks where the event happens (a closure that performs
+    the event counts at the block that constructs it)."""
+    sfns = state_fns(F)
+    lbs = logical_bodies(F, fn)
+    closure_events = {}
+    for lb in lbs:
+        if lb.kind == "closure" and lb.built:
+            names = set()
+            for blk, t in lb.built.calls():
+                nm = _event_name(F, fn, F.local_callee(lb, t), sfns)
+                if nm:
+                    names.add(nm)
+            closure_events[lb.raw["path"]] = names
+    out = []
+    for lb in lbs:
+        if lb.kind == "closure" or not lb.built:
+            continue
+        b = lb.built
+        ev = {}
+        for blk, t in b.calls():
+            nm = _event_name(F, fn, F.local_callee(lb, t), sfns)
+            if nm:
+                ev.setdefault(nm, set()).add(blk)
+        for loc, s_ in b.iter_stmts():
+            if s_["k"] == "assign" and s_["rv"]["k"] == "agg" and s_["rv"].get("of") == "closure":
+                for nm in closure_events.get(s_["rv"].get("def"), ()):
+                    ev.setdefault(nm, set()).add(loc[0])
+        out.append((lb, b, ev))
+    return out
+
+
+def unconditional(F, fn):
+    """(all event names, names whose sites cut every entry -> return path)"""
+    names, unc = set(), set()
+    for lb, b, ev in event_blocks(F, fn):
+        rets = set(b.return_blocks())
+        for nm, blks in ev.items():
+            names.add(nm)
+            if rets and not (b.reachable_from(0, avoid_blocks=blks) & rets):
+                unc.add(nm)
+    return names, unc
+
+
+def r16_5(ctx, af, sf):
+    """an effect the sync method performs on every completing path is not optional in the async twin (e.g. the wait for an update
+    skipped under a flag kept in the subscriber state)."""
+    F = ctx.facts
+    an, au = unconditional(F, af)
+    sn, su = unconditional(F, sf)
+    k = 0
+    for nm in sorted(su & an):
+        k += 1
+        if nm in au:
+            ctx.holds("R16.5", af, "unconditional:%s:%s" % (af.name, nm), af.loc(), "`%s` happens on every completing path, as in `%s`" % (nm, sf.path))
+        else:
+            ctx.violated("R16.5", af, "unconditional:%s:%s" % (af.name, nm), af.loc(),
+                         "the sync `%s` performs `%s` on every path to its return, the async `%s` has a path that returns without it: for the histories that take that path the results differ from the default flavour" % (sf.path, nm, af.path))
+    return k
+
+
 def pairs(F):
     out = []
     # inherent API only: the Stream / Future impls are the poll paths, decided by R16.2 / R16.3 (typestate), not by skeletons
@@ -140,6 +243,10 @@ def run(ctx):
             ctx.violated("R16.1", af, "sibling:%s" % af.name, af.loc(),
                          "the async `%s` does not have the effect skeleton of its sync twin `%s`:\n    async: %s\n    sync:  %s" % (af.path, sf.path, a, s))
     ctx.floor("R16.1", n, 22)
+    k5 = 0
+    for af, sf in ps:
+        k5 += r16_5(ctx, af, sf)
+    ctx.floor("R16.5", k5, 15)
     # R16.2 / R16.3: the async poll paths
     leaves = find_poll_leaf(F)
     k = 0
@@ -155,6 +262,7 @@ def run(ctx):
                 ok = a1[0] == "field" and a1[2] == "observed_version" and contains(cxe, lambda x: x[0] == "param" and x[1] == wakers.cx_param(b))
                 ctx.verdict(ok, "R16.2", f, "same-leaf", b.line_at((blk, 10 ** 6)), "poll leaf called with &mut self.observed_version and the caller's cx",
                             "the async poll path calls the leaf with `%s` / `%s`" % (fmt(a1, 3), fmt(cxe, 3)))
+        r16_4(ctx, f, leaves)
         wakers.check_poll_fn(ctx, "R16.3", f, sites)
         wakers.check_rearm(ctx, "R16.3", f, sites)
     ctx.floor("R16.3", k, 2)
